@@ -63,9 +63,10 @@ def run(ctx):
         f = ctx.fn(f"{M}.{name}")
         fa = FA(f)
         aug = fa.find(lambda s: isinstance(s, ast.AugAssign) and is_self_attr(s.target, "likelihood_evaluations"))
-        ok = len(aug) == 1 and isinstance(fa.stmt(aug[0]).op, ast.Add) and fa.once(aug[0]) and fa.on_every_normal_path(aug[0])
+        # (exactly-once per path is decided below, delegations to the sibling evaluator included)
+        ok = len(aug) == 1 and isinstance(fa.stmt(aug[0]).op, ast.Add) and fa.once(aug[0])
         xname = f.params()[1]
-        ctx.ob("R-ORDER", "C10.1", f, "counter is augmented exactly once on every path", ok, f"`{fa.text(aug[0]) if aug else None}`")
+        ctx.ob("R-ORDER", "C10.1", f, "the evaluator has one increment statement of the counter (an addition, outside any loop)", ok, f"`{fa.text(aug[0]) if aug else None}`")
         # the increment is the size of the batch: x.size / len(x) / x.shape[0], directly or through a local bound once
         # to it (the unit-hypercube mapping re-binds x to an array of the same length)
         inc_ = fa.stmt(aug[0]).value if len(aug) == 1 else None
@@ -81,10 +82,22 @@ def run(ctx):
     g_, _unres = _cgf(prog)
     ctx.require(ctx.fn(f"{M}.batch_evaluate_log_likelihood").qual in g_, "batch_evaluate_log_likelihood missing from the call graph")
     writers_ = {f_.qual for f_, _n, _k in sites}
+    from ..resolve import resolver as _resolver
+
+    res_ = _resolver(prog)
     for name in ("evaluate_log_likelihood", "batch_evaluate_log_likelihood"):
         f = ctx.fn(f"{M}.{name}")
-        reach_ = (_nx.descendants(g_, f.qual) if f.qual in g_ else set()) & writers_
-        ctx.ob("R-ORDER", "C10.1", f, "a counting evaluator calls nothing that also writes the counter (each point is counted by exactly one increment)", not reach_, f"reaches {sorted(q_.split(':')[-1] for q_ in reach_)}")
+        fa = FA(f)
+        own_ = fa.find(lambda s: isinstance(s, ast.AugAssign) and is_self_attr(s.target, "likelihood_evaluations"))
+        deleg_ = []
+        for nid_, c_ in fa.find_expr(lambda e_: isinstance(e_, ast.Call)):
+            for h_ in res_.resolve_call(f, c_, count=False) or []:
+                if h_.qual != f.qual and (h_.qual in writers_ or (h_.qual in g_ and _nx.descendants(g_, h_.qual) & writers_)):
+                    deleg_.append(nid_)
+        cnt_ = sorted(set(own_) | set(deleg_))
+        twice_ = [(fa.text(a_)[:40], fa.text(b_)[:40]) for a_ in cnt_ for b_ in cnt_ if (a_ != b_ and fa.cfg.can_follow(a_, b_)) or (a_ == b_ and fa.cfg.in_loop(a_))]
+        ok_ = bool(cnt_) and fa.cfg.every_exit_path_passes(fa.cfg.entry, cnt_) and not twice_
+        ctx.ob("R-ORDER", "C10.1", f, "every path through a counting evaluator counts its points exactly once: its own increment or one delegation to another counting evaluator, never both", ok_, f"counting statements {[fa.text(x_)[:50] for x_ in cnt_]}; executed one after the other: {twice_[:2]}")
     # the callables handed to the batch evaluator do not count
     for q in (M + ".log_likelihood", MP + ":log_likelihood_wrapper"):
         f = ctx.fn(q)
@@ -282,7 +295,7 @@ _MPF = "nessai/utils/multiprocessing.py"
 MUTANTS = [
     {"id": "double-count", "file": _MPF, "old": "    return _model.log_likelihood(x)\n", "new": "    _model.likelihood_evaluations += x.size\n    return _model.log_likelihood(x)\n", "expect": "likelihood_evaluations is written only"},
     {"id": "count-per-call", "file": _MO, "old": "        self.likelihood_evaluations += x.size\n        self.likelihood_evaluation_time", "new": "        self.likelihood_evaluations += 1\n        self.likelihood_evaluation_time", "expect": "counter grows by the number of points"},
-    {"id": "count-only-without-pool", "file": _MO, "old": "        self.likelihood_evaluations += x.size\n        self.likelihood_evaluation_time", "new": "        if self.pool is None:\n            self.likelihood_evaluations += x.size\n        self.likelihood_evaluation_time", "expect": "exactly once on every path"},
+    {"id": "count-only-without-pool", "file": _MO, "old": "        self.likelihood_evaluations += x.size\n        self.likelihood_evaluation_time", "new": "        if self.pool is None:\n            self.likelihood_evaluations += x.size\n        self.likelihood_evaluation_time", "expect": "counts its points exactly once"},
     {"id": "direct-likelihood-call", "file": "nessai/samplers/nestedsampler.py", "old": "                        newparam[\"logL\"] = self.model.evaluate_log_likelihood(\n                            newparam\n                        )", "new": "                        newparam[\"logL\"] = self.model.log_likelihood(\n                            newparam\n                        )", "expect": "called only inside Model"},
     {"id": "hypercube-not-mapped", "file": _MO, "old": "        st = datetime.datetime.now()\n        if unit_hypercube:\n            x = self.from_unit_hypercube(x)\n", "new": "        st = datetime.datetime.now()\n", "expect": "unit-hypercube inputs are mapped"},
     {"id": "hypercube-always-mapped", "file": _MO, "old": "        if unit_hypercube:\n            x = self.from_unit_hypercube(x)\n        return batch_evaluate_function(\n            self.log_prior,", "new": "        x = self.from_unit_hypercube(x)\n        return batch_evaluate_function(\n            self.log_prior,", "expect": "unit-hypercube inputs are mapped"},
